@@ -34,10 +34,12 @@ TraceReduce == /\ l <= Len(Steps)
                /\ pool' = Rec[k].out.hist[l]            \* the logged state is the specified state
                /\ l' = l + 1 /\ UNCHANGED k
 FinalBad == Len(pool) = 1 /\ Len(cands) > 1 /\ WinnerUnique /\ pool[1] # Winner
-Reject == /\ \/ (l <= Len(Steps) /\ ReduceResult(Steps[l][1], Steps[l][2]) # Rec[k].out.hist[l])
-             \/ (l = Len(Steps) + 1 /\ FinalBad)
+Done == 9999
+Terminal == l = Len(Steps) + 1 /\ ~FinalBad
+\* rejected: Reduce cannot produce the next logged pool, or the survivor is not the winner
+Reject == /\ l # Done /\ ~ENABLED TraceReduce /\ ~Terminal
           /\ PrintT(<<"MISMATCH", k, Tag>>)
-          /\ l' = Len(Steps) + 2 /\ UNCHANGED <<pat, cands, pool, lb, k>>
+          /\ l' = Done /\ UNCHANGED <<pat, cands, pool, lb, k>>
 Next == TraceReduce \/ Reject
 
 \* records that are not replayed must at least have returned normally
